@@ -290,6 +290,33 @@ theorem C03_frame_desc_stable (pre post : List Op) (h : Accepted (pre ++ post) =
   cases ht''
   exact prefix_getElem? hle.2.2 hk
 
+/-- **Canonical interning of label frames.** If `handle_for_frame_with_label(_and_source_location)` returned
+the frame handle `(t, i)` at some point of an accepted history, then in the profile serialized *at the end
+of the history* row `i` of that thread's frame table decodes — through funcTable, stringArray,
+meta.categories — to exactly what the caller passed (`P.labelDesc`, evaluated in the state before the
+call): the label string, the category / subcategory names behind the subcategory handle, no library /
+address / native symbol, inline depth 0, the file string, line, column and the flags. -/
+theorem C03_canonical_label_frame (pre post : List Op) (t str : Nat)
+    (src : Option (Option Nat × Option Nat × Option Nat)) (sc : SubSpec) (flags i : Nat)
+    (h : Accepted (pre ++ .frameLabel t str src sc flags :: post) = true)
+    (hout : (step (run pre) (.frameLabel t str src sc flags)).2 = .h [t, i])
+    (s : SerProfile) (hs : serialize (run (pre ++ .frameLabel t str src sc flags :: post)) = some s) :
+    ∃ d, (run pre).labelDesc str src sc flags = some d ∧
+      ∃ th st, (run (pre ++ .frameLabel t str src sc flags :: post)).threads[t]? = some th ∧ st ∈ s.threads ∧
+        st.tid = idString th.tid ∧ decodeFrame s st i = some d := by
+  obtain ⟨hpre, hv⟩ := C03_accepted_split pre _ post h
+  obtain ⟨d, th2, k, hd, ht2, hk2, hdesc⟩ :=
+    label_step (run pre) (Inv.run pre hpre) (SDecAll.run pre hpre) t str src sc flags hv i hout
+  have hrun : run (pre ++ [.frameLabel t str src sc flags]) = (step (run pre) (.frameLabel t str src sc flags)).1 := by
+    simp [run, List.foldl_append]
+  have hall : pre ++ .frameLabel t str src sc flags :: post = (pre ++ [.frameLabel t str src sc flags]) ++ post := by
+    simp
+  rw [hall] at h hs ⊢
+  rw [← hrun] at ht2 hdesc
+  obtain ⟨th', ht', hk', hd'⟩ := C03_frame_desc_stable _ post h t i th2 k d ht2 hk2 hdesc
+  obtain ⟨st, hst, htid, hdec⟩ := C03_frame_decode _ h s hs t th' ht'
+  exact ⟨d, hd, th', st, ht', hst, htid, by rw [hdec i k hk', hd']⟩
+
 /-- **Frame handles are stable.** The frame key behind a valid frame handle is the same at the end of any
 continuation of the history. -/
 theorem C03_frame_key_stable (pre post : List Op) (f : TH) (hv : (run pre).frameOk f = true) :
